@@ -649,6 +649,92 @@ theorem cawg_failure_never_invalid_at_false : ¬ CawgFailureNeverInvalidAt := by
     (by decide)
   exact hne (pad_change_invalidates _ _ _ _ (Or.inl ⟨7, by decide, by decide⟩))
 
+/-! ### independence of reports across the assertions of one pass -/
+
+/-- The tracker after a pass is the tracker before it followed by each assertion's own slice. -/
+theorem validateThreaded_eq (xs : List (Identity × List HUri)) :
+    ∀ tr : List Entry, validateThreaded tr xs = tr ++ ((passSlices xs).map (·.2)).flatten := by
+  induction xs with
+  | nil => intro tr; simp [validateThreaded, passSlices]
+  | cons x xs ih =>
+    intro tr
+    simp only [validateThreaded, validateIn, ih, passSlices, List.map_cons, List.flatten_cons,
+      List.append_assoc]
+
+/-- **`report_independent`**: what an assertion's validation writes to the tracker, and its
+result, do not depend on what the tracker already holds (earlier failures of other assertions, of
+the C2PA checks, …). -/
+theorem report_independent (tr tr' : List Entry) (ia : Identity) (claim : List HUri) :
+    (validateIn tr ia claim).1 = (validateIn tr' ia claim).1 ∧
+    (validateIn tr ia claim).2.drop tr.length = (validateIn tr' ia claim).2.drop tr'.length := by
+  simp [validateIn]
+
+/-- The slice assertion `i` of a pass writes is `validate` of that assertion alone — whatever the
+other assertions of the pass are and in whatever order they come. -/
+theorem pass_slice (xs : List (Identity × List HUri)) (i : Nat) (h : i < xs.length) :
+    (passSlices xs)[i]'(by simpa [passSlices] using h) = validate xs[i].1 xs[i].2 := by
+  simp [passSlices]
+
+/-- **`changed_assertion_reported_in_pass`**: in a pass over any assertions, on any tracker, every
+`cawg.x509.cose` assertion whose signature does not end in "verified", every assertion with an
+unbound / repeated reference or no hard binding, and every assertion with a non-zero pad byte has
+a `cawg.*` failure *in its own slice* — regardless of what else the pass logged. -/
+theorem changed_assertion_reported_in_pass (xs : List (Identity × List HUri)) (i : Nat)
+    (h : i < xs.length)
+    (hch : (xs[i].1.sigType = .x509 ∧ xs[i].1.sig.outcome ≠ .verified) ∨
+      ((∃ r ∈ xs[i].1.refs, ¬ RefBound xs[i].2 r) ∨ ¬ (xs[i].1.refs.map (·.url)).Nodup ∨
+        (∀ r ∈ xs[i].1.refs, isHardBindingRef r.url = false)) ∨
+      ((∃ b ∈ xs[i].1.pad1, b ≠ 0) ∨
+        ((∀ b ∈ xs[i].1.pad1, b = 0) ∧ ∃ p, xs[i].1.pad2 = some p ∧ ∃ b ∈ p, b ≠ 0))) :
+    ∃ e ∈ ((passSlices xs)[i]'(by simpa [passSlices] using h)).2, IsCawgFailure e := by
+  rw [pass_slice xs i h]
+  rcases hch with ⟨ht, hs⟩ | hr | hp
+  · exact signature_change_reported _ _ ht hs
+  · obtain ⟨e, he, hc⟩ := identity_binds_references _ _ hr
+    exact ⟨e, validate_keeps_claim_failures _ _ e he, hc⟩
+  · exact ⟨failE cPad, pad_change_reported _ _ hp, failE_cawg _ pad_is_cawg⟩
+
+/-- … and every failure an assertion of the pass logs is recorded in the results after the pass
+(`Reader::post_validate`), whatever is added before or after it. -/
+theorem pass_failure_recorded (xs : List (Option (List Char) × Identity × List HUri))
+    (x : Option (List Char) × Identity × List HUri) (hx : x ∈ xs) (e : Entry)
+    (he : e ∈ (validate x.2.1 x.2.2).2) (hk : e.2 = .failure) :
+    ∀ base : C04.Results, HasFailure (postValidateMany base xs) e.1 := by
+  induction xs with
+  | nil => cases hx
+  | cons y ys ih =>
+    intro base
+    unfold postValidateMany
+    simp only [List.foldl_cons]
+    rcases List.mem_cons.1 hx with rfl | hx'
+    · -- recorded by this step, kept by the rest
+      have hstep : HasFailure (postValidate base x.1 (validate x.2.1 x.2.2).2) e.1 := by
+        unfold postValidate
+        have key : ∀ (l : List Entry) (r : C04.Results), e ∈ l →
+            HasFailure ((l.map (toStatus x.1)).foldl C04.addStatus r) e.1 := by
+          intro l
+          induction l with
+          | nil => intro _ h; cases h
+          | cons a as ih2 =>
+            intro r hm
+            simp only [List.map_cons, List.foldl_cons]
+            rcases List.mem_cons.1 hm with rfl | hm'
+            · exact hasFailure_foldl _ _ _ (hasFailure_of_add r (toStatus x.1 e) hk)
+            · exact ih2 _ hm'
+        exact key _ base he
+      have hrest : ∀ (zs : List (Option (List Char) × Identity × List HUri)) (r : C04.Results),
+          HasFailure r e.1 →
+          HasFailure (zs.foldl (fun r x => postValidate r x.1 (validate x.2.1 x.2.2).2) r) e.1 := by
+        intro zs
+        induction zs with
+        | nil => intro r h; exact h
+        | cons z zs ih3 =>
+          intro r h
+          simp only [List.foldl_cons]
+          exact ih3 _ (hasFailure_foldl _ _ _ h)
+      exact hrest ys _ hstep
+    · exact ih hx' _
+
 /-! ### the `sig_type` gap -/
 
 /-- The statement's "any change to the signer payload is reported". -/
